@@ -54,8 +54,9 @@ class NondeterministicReplay(Exception):
 
 
 class ScriptedPRNG:
-    def __init__(self, script: Optional[List[int]] = None, force_tail: Optional[Callable] = None):
+    def __init__(self, script: Optional[List[int]] = None, chooser: Optional[Callable] = None):
         self.script = list(script or [])
+        self.chooser = chooser       # single-path mode: picks among the viable outcomes once the script is used up
         self.pos = 0
         self.weight = 1.0
         self.taken: List[int] = []
@@ -85,7 +86,7 @@ class ScriptedPRNG:
                 raise NondeterministicReplay(
                     f"draw #{self.pos} ({kind}) was offered {probs} on replay; scripted outcome {o} is not viable")
         else:
-            o = viable[0]
+            o = viable[self.chooser(len(viable))] if self.chooser is not None else viable[0]
             self.script.append(o)
         self.pos += 1
         self.taken.append(o)
